@@ -64,39 +64,39 @@ Definition compute_reflector (x1 x2 x3 : T o) : nat * (T o * T o * T o) :=
 Definition refl := (nat * (T o * T o * T o))%type.
 Definition refl_id : refl := (1%nat, (zero o, zero o, zero o)).
 
+(* one application of the reflector P = I - 2 u u' to a pair / triple of entries (the inner statements of apply_PX / apply_XP) *)
+Definition hh2 (u0 u1 x0 x1 : T o) : T o * T o :=
+  let u0_2 := two * u0 in let u1_2 := two * u1 in
+  let tmp := u0_2 * x0 + u1_2 * x1 in (x0 - tmp * u0, x1 - tmp * u1).
+Definition hh3 (u0 u1 u2 x0 x1 x2 : T o) : T o * T o * T o :=
+  let u0_2 := two * u0 in let u1_2 := two * u1 in let u2_2 := two * u2 in
+  let tmp := u0_2 * x0 + u1_2 * x1 + u2_2 * x2 in (x0 - tmp * u0, x1 - tmp * u1, x2 - tmp * u2).
+
 (* apply_PX on the block rows r0.. (nrow rows), columns c0 .. c0+ncol-1 *)
 Definition apply_PX_block (rf : refl) (r0 c0 nrow ncol : nat) (H : mat) : mat :=
   let '(nr, (u0, u1, u2)) := rf in
   if Nat.eqb nr 1 then H else
-  let u0_2 := two * u0 in let u1_2 := two * u1 in
   if (Nat.eqb nr 2 || Nat.eqb nrow 2)%bool then
     fold_left (fun H j =>
-      let x0 := mget o H r0 j in let x1 := mget o H (S r0) j in
-      let tmp := u0_2 * x0 + u1_2 * x1 in
-      mset o (mset o H r0 j (x0 - tmp * u0)) (S r0) j (x1 - tmp * u1)) (seq c0 ncol) H
+      let '(y0, y1) := hh2 u0 u1 (mget o H r0 j) (mget o H (S r0) j) in
+      mset o (mset o H r0 j y0) (S r0) j y1) (seq c0 ncol) H
   else
-    let u2_2 := two * u2 in
     fold_left (fun H j =>
-      let x0 := mget o H r0 j in let x1 := mget o H (S r0) j in let x2 := mget o H (S (S r0)) j in
-      let tmp := u0_2 * x0 + u1_2 * x1 + u2_2 * x2 in
-      mset o (mset o (mset o H r0 j (x0 - tmp * u0)) (S r0) j (x1 - tmp * u1)) (S (S r0)) j (x2 - tmp * u2)) (seq c0 ncol) H.
+      let '(y0, y1, y2) := hh3 u0 u1 u2 (mget o H r0 j) (mget o H (S r0) j) (mget o H (S (S r0)) j) in
+      mset o (mset o (mset o H r0 j y0) (S r0) j y1) (S (S r0)) j y2) (seq c0 ncol) H.
 
 (* apply_XP on the block rows 0 .. nrow-1, columns c0, c0+1 (, c0+2) *)
 Definition apply_XP_block (rf : refl) (c0 nrow ncol : nat) (H : mat) : mat :=
   let '(nr, (u0, u1, u2)) := rf in
   if Nat.eqb nr 1 then H else
-  let u0_2 := two * u0 in let u1_2 := two * u1 in
   if (Nat.eqb nr 2 || Nat.eqb ncol 2)%bool then
     fold_left (fun H i =>
-      let x0 := mget o H i c0 in let x1 := mget o H i (S c0) in
-      let tmp := u0_2 * x0 + u1_2 * x1 in
-      mset o (mset o H i c0 (x0 - tmp * u0)) i (S c0) (x1 - tmp * u1)) (seq 0 nrow) H
+      let '(y0, y1) := hh2 u0 u1 (mget o H i c0) (mget o H i (S c0)) in
+      mset o (mset o H i c0 y0) i (S c0) y1) (seq 0 nrow) H
   else
-    let u2_2 := two * u2 in
     fold_left (fun H i =>
-      let x0 := mget o H i c0 in let x1 := mget o H i (S c0) in let x2 := mget o H i (S (S c0)) in
-      let tmp := u0_2 * x0 + u1_2 * x1 + u2_2 * x2 in
-      mset o (mset o (mset o H i c0 (x0 - tmp * u0)) i (S c0) (x1 - tmp * u1)) i (S (S c0)) (x2 - tmp * u2)) (seq 0 nrow) H.
+      let '(y0, y1, y2) := hh3 u0 u1 u2 (mget o H i c0) (mget o H i (S c0)) (mget o H i (S (S c0))) in
+      mset o (mset o (mset o H i c0 y0) i (S c0) y1) i (S (S c0)) y2) (seq 0 nrow) H.
 
 Fixpoint set_refl (rs : list refl) (i : nat) (r : refl) : list refl :=
   match rs, i with [], _ => [] | _ :: t, O => r :: t | a :: t, S i' => a :: set_refl t i' r end.
